@@ -37,6 +37,8 @@ fn c18_livelist_transmit() {
     let fdl = any_fdl();
     let mut ll = any_live_list();
     let pre_cursor = ll.cursor;
+    let ts = fdl.parameters().address;
+    let succ = |a: u8| if a >= 125 { 0 } else { a + 1 };
     let pre_done = ll.current_address_done;
     let pre_words = ll.stations.data;
     let mut buf = [0u8; 8];
@@ -46,28 +48,33 @@ fn c18_livelist_transmit() {
     vassert!(ll.stations.data[0] == pre_words[0] && ll.stations.data[1] == pre_words[1], "C18/list: asking for a telegram never changes the list");
     if pre_done {
         vassert!(res.is_none(), "C18/sweep: after an address is done the application ends its turn");
-        vassert!(ll.cursor == if pre_cursor == 125 { 0 } else { pre_cursor + 1 }, "C18/sweep: the sweep advances by exactly one address, wrapping after 125");
+        vassert!(ll.cursor == succ(pre_cursor) || (succ(pre_cursor) == ts && ll.cursor == succ(ts)), "C18/sweep: the sweep advances to the next address, wrapping after 125 (only the scanning station's own address may be skipped)");
         vassert!(!ll.current_address_done, "C18/sweep: the next address is pending");
         kani::cover!(pre_cursor == 125, "cover: sweep wraps");
     } else {
         let r = res.unwrap();
+        // the probe goes to the cursor address; a cursor sitting on the scanning station's own
+        // address may move on by one first (nobody answers there, the property excludes it)
+        let probed = ll.cursor;
+        vassert!(probed == pre_cursor || (pre_cursor == ts && probed == succ(ts)), "C18/sweep: the probed address is the cursor address (only the scanning station's own address may be skipped)");
         let h = DataTelegramHeader {
-            da: pre_cursor,
-            sa: fdl.parameters().address,
+            da: probed,
+            sa: ts,
             dsap: None,
             ssap: None,
             fc: FunctionCode::Request { fcb: crate::fdl::FrameCountBit::Inactive, req: crate::fdl::RequestType::FdlStatus },
         };
         let mut expect = [0u8; 8];
         let elen = ref_encode(&h, 0, |_| 0, &mut expect);
-        vassert!(r.bytes_sent() == elen && r.expects_reply() == Some(pre_cursor), "C18/probe: a status request to the cursor address, expecting its reply");
+        vassert!(r.bytes_sent() == elen && r.expects_reply() == Some(probed), "C18/probe: a status request to the cursor address, expecting its reply");
         let mut i = 0;
         while i < elen {
             vassert!(buf[i] == expect[i], "C18/probe: the probe is an FDL status request from this station to the cursor address");
             i += 1;
         }
         vassert!(pre_cursor <= 125, "C18/probe: only addresses 0..125 are probed");
-        vassert!(ll.cursor == pre_cursor && !ll.current_address_done, "C18/sweep: the cursor stays until reply or time-out");
+        vassert!(probed <= 125, "C18/probe: only addresses 0..125 are probed");
+        vassert!(!ll.current_address_done, "C18/sweep: the cursor stays until reply or time-out");
         kani::cover!(true, "cover: probe sent");
     }
     vassert!(ll.cursor <= 125, "C18/probe: the cursor stays within 0..125");
